@@ -214,12 +214,38 @@ pub fn judge_instance<T: Sc>(out: &mut CaseOut, stream: &str, case: u64, spec: &
             return;
         }
     }
+    // KF-3: same optimizer behaviour (huge first steps under the MINPACK step bound of 100), other end state:
+    // the iteration settles at a stationary point where two decay constants coincide although the
+    // generating ones are well separated (the fit of k decays degenerates into one of k-1)
+    if let Some(ms) = spec.model.spec() {
+        let decays: Vec<usize> = ms.basis.iter().filter_map(|b| if let Basis::Exp(k) = b { Some(*k) } else { None }).collect();
+        let collapsed = decays.iter().enumerate().any(|(i, &a)| {
+            decays.iter().skip(i + 1).any(|&b| {
+                let (x, y) = (alpha_hat[a], alpha_hat[b]);
+                let (tx, ty) = (alpha_true[a], alpha_true[b]);
+                x.is_finite() && y.is_finite() && x * y > 0.0 && (x - y).abs() <= 1e-3 * x.abs().max(y.abs()) && (tx / ty).max(ty / tx) >= 1.5
+            })
+        });
+        if collapsed {
+            out.known.push(KnownHit {
+                stream: stream.into(),
+                case,
+                signature: "KF-3:two-decay-constants-collapsed".into(),
+                what: format!("{} — two decay constants coincide at the returned point (alpha*={alpha_true:?}, alpha^={alpha_hat:?})", problems.join("; ")),
+                detail: json!({"problem": spec.to_json(), "alpha_true": alpha_true, "alpha_hat": alpha_hat}),
+            });
+            return;
+        }
+    }
     // triage: was the dependency's SVD inaccurate at the returned point or anywhere on the trajectory?
     let Ok(twin) = build_problem::<T>(&spec, &SpyCtl::new()) else { return };
     let (_p, _rep, steps) = minimize_spied(&lm, twin);
     let mut worst_e: f64 = 0.0;
     for st in &steps {
         let a: Vec<f64> = st.params_after.iter().map(|v| v.w()).collect();
+        if std::env::var("VERIF_TRACE").is_ok() {
+            eprintln!("trace: alpha={a:?} |r|={:?}", st.resid.first().and_then(|r| r.as_ref()).map(|r| r.iter().map(|v| v.w() * v.w()).sum::<f64>().sqrt()));
+        }
         match dependency_svd_error_at::<T>(&spec, &a) {
             Some(e) => worst_e = worst_e.max(e),
             None => worst_e = f64::INFINITY,
@@ -239,22 +265,23 @@ pub fn judge_instance<T: Sc>(out: &mut CaseOut, stream: &str, case: u64, spec: &
         json!({"problem": spec.to_json(), "alpha_true": alpha_true, "alpha_hat": alpha_hat, "termination": fit.termination()}));
 }
 
-/// committed witnesses of known finding KF-2 (independent of VERIF_SEED)
+/// committed witnesses of the known findings KF-2 and KF-3 (independent of VERIF_SEED)
 fn witness_case(_rng: &mut Rng, case: u64, out: &mut CaseOut) {
-    let path = format!("{}/witnesses/C05-KF2-{}.json", VERIF_DIR, ["a", "b"][case as usize % 2]);
+    let path = format!("{}/witnesses/C05-{}.json", VERIF_DIR, ["KF2-a", "KF2-b", "KF3-a"][case as usize % 3]);
     let Ok(body) = std::fs::read_to_string(&path) else { return };
     let Ok(j) = serde_json::from_str::<serde_json::Value>(&body) else { return };
     let Some(spec) = ProblemSpec::from_json(&j["problem"]) else { return };
     let alpha_true: Vec<f64> = j["alpha_true"].as_array().map(|a| a.iter().filter_map(|x| x.as_f64()).collect()).unwrap_or_default();
+    let noiseless = j["noiseless"].as_bool().unwrap_or(false);
     if j["scalar"] == "f32" {
-        judge_instance::<f32>(out, "kf2-witnesses", case, &spec, &alpha_true, "F2 witness", false);
+        judge_instance::<f32>(out, "kf2-witnesses", case, &spec, &alpha_true, "committed witness", noiseless);
     } else {
-        judge_instance::<f64>(out, "kf2-witnesses", case, &spec, &alpha_true, "F2 witness", false);
+        judge_instance::<f64>(out, "kf2-witnesses", case, &spec, &alpha_true, "committed witness", noiseless);
     }
 }
 
 pub fn run(ctx: &Ctx) {
-    ctx.run_cases("kf2-witnesses", 2, 30.0, witness_case);
+    ctx.run_cases("kf2-witnesses", 3, 30.0, witness_case);
     ctx.rule("certified families only: F1 two/three decays with tau ratios in [3,6], tau_1 in [0.5,2], x on [0,4·tau_max], N in [24,200], optional offset; F2 Gaussian peak (centre mid-range, width 5..20% of the range) + decay + offset; F3 single decay + offset; |c_j| in [0.5,5]; starts within 5% of the generating parameters; noise none or bounded uniform <= 1e-3 of the signal; weights none or in [0.5,2]; 1, 2 or 5 right-hand sides; builder-made and hand-written; f32/f64; sequential/parallel; default solver. Verdict: Ok; noiseless data reproduced to 1e-10·max|y| (1e-3 for f32); weighted SSQ <= SSQ at the generating parameters (rel 1e-9); |cos(J_k, r)| <= 1e-4 for noisy data. distinct = problem hash; every instance non-trivial");
     ctx.assume("the claim is limited to these families and ranges; it says nothing about global convergence");
     ctx.assume("a failing instance is attributed to KF-1 only if the dependency's SVD reconstruction error exceeded 16 eps somewhere on the optimizer's trajectory");
